@@ -7,7 +7,7 @@ wt = f"/tmp/wt-{pid}"
 out = f"/tmp/seed-{pid}"
 print(f"""You are helping test a verification framework by writing realistic *bugs* ("seeded changes") for the freedesktop/dbus code base (reference D-Bus implementation: libdbus + dbus-daemon, C, CMake build).
 
-Your own private scratch git worktree of the repository is at {wt} (detached HEAD at the pinned commit). Work ONLY inside {wt} and {out}/ . Do NOT read, list or touch /verif or /repo or any other /tmp/wt-* directory — your work must be independent of them.
+Your own private scratch git worktree of the repository is at {wt} (detached HEAD at the current commit of the repository). Work ONLY inside {wt} and {out}/ . Do NOT read, list or touch /verif or /repo or any other /tmp/wt-* directory — your work must be independent of them.
 
 Here is a semantic property that the code base is supposed to satisfy (JSON record):
 
@@ -20,7 +20,7 @@ TASK: produce {n} different, independent source changes to freedesktop/dbus (fil
 Each change should be small (a few lines), realistic, and hit a *different* mechanism/part of the property from the others.
 
 For EACH change k = 1..{n} deliver a directory {out}/k/ containing:
-  - patch.diff   : `git diff` of the change against the pinned commit (must apply with `git apply` at the repository root)
+  - patch.diff   : `git diff` of the change against your worktree HEAD (must apply with `git apply` at the repository root)
   - a demonstration: a small C program or test (demo.c plus a build+run script demo.sh taking the source tree root as $1 and the build dir as $2; or a shell script driving existing binaries) that exits non-zero / visibly FAILS with the change applied and exits 0 / PASSES on the unchanged tree. It may link against the built libraries in the build dir (e.g. libdbus-internal / libdbus-1, headers in the tree, config.h in the build dir) and may call internal functions.
   - README.md   : which part of the property it breaks, what exactly is needed for it to manifest, and the exact commands you ran (build, tests, demo with and without the change) with their observed outcomes.
 
